@@ -22,7 +22,7 @@ REGISTRY = {
     "C10": ("model_checking", ["expanding"]),
     "C11": ("fault_enumeration", ["ondisk"]),
     "C12": ("model_checking", ["bloomfam", "countmin"]),
-    "C13": ("model_checking", ["bloomfam", "countmin"]),
+    "C13": ("model_checking", ["bloomfam", "countmin", "compat"]),
     "C14": ("model_checking", ["bloomfam", "countmin", "qf", "cuckoo", "expanding"]),
     "C16": ("model_checking", ["bloomfam", "countmin"]),
     "C15": ("model_checking", ["cuckoo"]),
